@@ -256,6 +256,53 @@ pub fn check_near_full_pool(room: u32) -> Check {
         .map_err(|(k, d)| fail(&k, &d, "flush", &format!("a pool with room for {room} more strings; create_table(Extra) needing 4 returned {}", if r.is_ok() { "Ok" } else { "Err" })))
 }
 
+/// One text live in two pool entries (interning takes a free lower slot
+/// before it reaches the existing entry further up), then operations that
+/// select rows by that text: a drop of the table of that name (`variant` 0),
+/// a delete by equality on a user table (1), an update by equality (2).
+pub fn check_duplicate_text(variant: u32) -> Check {
+    use msi::{Column, Delete, Expr, Insert, Package, PackageType, Update, Value};
+    let buf = crate::media::SharedBuf::new(Vec::new());
+    let e = |what: &str, e: std::io::Error| Fail::new(format!("{P} unexpected-error op={what}"), e.to_string());
+    let mut pkg = Package::create(PackageType::Installer, buf.clone()).map_err(|x| e("create", x))?;
+    pkg.create_table("A", vec![Column::build("k").primary_key().string(0), Column::build("v").nullable().string(0)]).map_err(|x| e("create_table A", x))?;
+    pkg.insert_rows(Insert::into("A").row(vec![Value::from("early one"), Value::from("early two")])).map_err(|x| e("insert", x))?;
+    pkg.create_table("Foo", vec![Column::build("Bar").primary_key().int16(), Column::build("Baz").nullable().string(0)]).map_err(|x| e("create_table Foo", x))?;
+    pkg.insert_rows(Insert::into("Foo").row(vec![Value::Int(1), Value::from("Foo")]).row(vec![Value::Int(2), Value::from("other")])).map_err(|x| e("insert Foo", x))?;
+    // free two entries that lie below everything the second table brought
+    pkg.delete_rows(Delete::from("A")).map_err(|x| e("delete", x))?;
+    // these texts exist further up; they now also go into the freed entries
+    pkg.insert_rows(Insert::into("A").row(vec![Value::from("Foo"), Value::from("Baz")])).map_err(|x| e("insert duplicates", x))?;
+    let what = match variant {
+        0 => {
+            pkg.drop_table("Foo").map_err(|x| e("drop_table", x))?;
+            "drop_table(Foo)"
+        }
+        1 => {
+            pkg.delete_rows(Delete::from("Foo").with(Expr::col("Baz").eq(Expr::string("Foo")))).map_err(|x| e("delete by text", x))?;
+            "delete(Foo where Baz = \"Foo\")"
+        }
+        _ => {
+            pkg.update_rows(Update::table("Foo").set("Baz", Value::from("changed")).with(Expr::col("Baz").eq(Expr::string("Foo")))).map_err(|x| e("update by text", x))?;
+            "update(Foo set Baz = \"changed\" where Baz = \"Foo\")"
+        }
+    };
+    // what the API reports must be what the relational reading says ...
+    let snap = crate::observe::observe(&mut pkg).map_err(|x| Fail::new(format!("{P} observer-inconsistent"), x))?;
+    let foo_rows: Option<usize> = snap.tables.get("Foo").map(|t| t.1.len());
+    let expect = match variant {
+        0 => None,
+        1 => Some(1),
+        _ => Some(2),
+    };
+    if foo_rows != expect {
+        return Err(fail("api-state", &format!("after {what} table Foo has {foo_rows:?} rows, expected {expect:?}"), "immediately", "A holds the texts \"Foo\" and \"Baz\" in pool entries below the ones table Foo uses"));
+    }
+    // ... and the saved file must say the same
+    pkg.flush().map_err(|x| e("flush", x))?;
+    check_file(&buf.bytes(), &snap, true).map(|_| ()).map_err(|(k, d)| fail(&k, &d, "flush", &format!("texts live in two pool entries, then {what}")))
+}
+
 pub fn run(ctx: &Ctx) -> Report {
     let mut rep = Report::new(
         "exploration",
@@ -290,6 +337,16 @@ pub fn run(ctx: &Ctx) -> Report {
             }
         }
     }
+    for variant in 0..3u32 {
+        st.eval();
+        st.class("duplicate-pool-text");
+        if let Err(f) = check_duplicate_text(variant) {
+            if !ctx.is_known(&f.sig) {
+                rep.violations.push(crate::engine::Violation { sig: f.sig, detail: f.detail, case: json!({"kind": "duptext", "case": variant}) });
+                break;
+            }
+        }
+    }
     for room in 0..=5u32 {
         st.eval();
         st.class("near-full-pool");
@@ -312,6 +369,7 @@ pub fn replay(_ctx: &Ctx, doc: &J) -> Check {
         "seq" => check_seq(&serde_json::from_value::<SeqCase>(doc["case"].clone()).map_err(bad)?, &mut st),
         "prefixes" => check_prefixes(&serde_json::from_value::<SeqCase>(doc["case"].clone()).map_err(bad)?, &mut st),
         "cap" => check_refcount_cap(doc["case"].as_u64().unwrap_or(0) as u32),
+        "duptext" => check_duplicate_text(doc["case"].as_u64().unwrap_or(0) as u32),
         "nearfull" => check_near_full_pool(doc["case"].as_u64().unwrap_or(0) as u32),
         _ => Err(Fail::new(format!("{P} bad-replay"), format!("unknown case kind {kind:?}"))),
     }
